@@ -212,15 +212,21 @@ impl StringLiteral<&'_ str> {
 fn unescape_string_literal(mut s: &str) -> String {
     let mut string = String::new();
     while let Some(i) = s.bytes().position(|b| b == b'\\') {
-        let c = match s.as_bytes()[i + 1] {
-            b'\'' => '\'',
-            b'"' => '"',
-            b'\\' => '\\',
-            b'/' => '/',
-            b'n' => '\n',
-            b'r' => '\r',
-            b't' => '\t',
-            _ => panic!("Invalid escape"),
+        let c = match s.as_bytes().get(i + 1) {
+            Some(b'\'') => '\'',
+            Some(b'"') => '"',
+            Some(b'\\') => '\\',
+            Some(b'/') => '/',
+            Some(b'n') => '\n',
+            Some(b'r') => '\r',
+            Some(b't') => '\t',
+            // An invalid escape (or a backslash that ends the input) has already been reported as
+            // an error when the literal was lexed: keep the text as it is
+            _ => {
+                string.push_str(&s[..=i]);
+                s = &s[i + 1..];
+                continue;
+            }
         };
         string.push_str(&s[..i]);
         string.push(c);
